@@ -884,7 +884,7 @@ Definition ex_site : site := mkSite [(B "api/secret.json", B "SECRET"); (B "pub.
 Definition ex_cfg_fs : ccfg := mkCfgC false true (rs_build rs_add ex_hist_fs) [] true.
 Definition ex_app_fs : app_handlers := site_app [] (Some ex_site).
 
-(** the code before the repair 9dff57d (no RequestedUri): GET /api/ from an origin the rule of /api/ refuses;
+(** the code before the repair 8f77d7d (no RequestedUri): GET /api/ from an origin the rule of /api/ refuses;
     uri_redirect moves the path to /api/index.html whose rule allows all origins: 403 *with*
     access-control-allow-origin *)
 Lemma known_class_witness :
@@ -907,7 +907,7 @@ Proof.
   cbv zeta. split; vm_compute; reflexivity.
 Qed.
 
-(** the code before the repair 43f721b (rule looked up with the path as spelled only): GET /%61pi/secret.json
+(** the code before the repair 673b91a (rule looked up with the path as spelled only): GET /%61pi/secret.json
     from an origin that the rule of /api/secret.json refuses is judged by /* and gets the file *)
 Lemma raw_path_v0_witness :
   let r := ex_req M_GET (B "/%61pi/secret.json") [(H_ORIGIN, B "https://evil.example")] in
@@ -919,7 +919,7 @@ Proof.
   cbv zeta. split; [vm_compute; reflexivity|]. split; vm_compute; reflexivity.
 Qed.
 
-(** the code before the repair 8cf6420 (the refusal had the cache preference Full): with a status filter that
+(** the code before the repair d00feae (the refusal had the cache preference Full): with a status filter that
     caches every status, a refused request stores its 403 under the request's own path, and the next
     request without Origin gets it *)
 Lemma denied_cached_v0_witness :
